@@ -46,3 +46,14 @@ reg("C19", "E1-product",
     "mutated inputs, non-canonical merged id, or a default-policy merge of non-add changes is a violation.",
     "MergeError is always acceptable. Values differ only in hash. Universe: <=4 keys, 2 values.",
     "DESIGN.md §4 C19")
+
+reg("C08", "E1-product",
+    "exhaustive enumeration of all ordered pairs of well-formed indexes x option combinations on the real index diff, vs flat reference diff",
+    "All ordered pairs (plus None on either side) of the ~150 (quick) / ~10^3 (thorough) distinct well-formed "
+    "indexes over keys {a, a/x, a/y, b (, a/x/z)} with entry variants {file h1/h2, no hash, no metadata, exec, "
+    "legacy-named hash, implicit / explicit / hashed directory} x 20 option combinations: ~5*10^5 (quick) real "
+    "diffs compared as multisets with a flat per-key reference; rename mode checked for key conservation, equal "
+    "hashes and per-hash count == min(#deleted, #added).",
+    "Well-formedness as the property assumes (content-derived directory hashes). Entries with neither hash nor "
+    "metadata excluded. roots=/with_unknown=/meta_cmp_key= not varied.",
+    "DESIGN.md §4 C08")
